@@ -798,3 +798,31 @@ def rule_scaleuse(ctx: Ctx) -> List[Ob]:
                           construct=f"{f.qual}: {short(st, 70)}"))
     return obs
 
+
+@rule("STPCAP", min_instances=1)
+def rule_stpcap(ctx: Ctx) -> List[Ob]:
+    """the step cap handed to DCSRCH / dcsrch is the value of max_allowed_steplength(x0, d, lb, ub, user cap, iteration) and
+    nothing else: every definition of the variable in the stpmax slot that reaches the kernel is that call (reaching
+    definitions over line_search).  A second writer (a tighter or looser cap) changes the trial steps of the reference run."""
+    ls = ctx.repo.func("linesearch.line_search")
+    obs: List[Ob] = []
+    # ... and from nothing else: every definition of the variable in the stpmax slot that reaches DCSRCH / dcsrch is that call
+    cfg_ls, rd_ls = ctx.cfg(ls), ctx.rd(ls)
+    for c in walk_no_nested(ls.node):
+        if isinstance(c, ast.Call) and ((dotted(c.func) or "").endswith("DCSRCH") or (dotted(c.func) or "").split(".")[-1] in ("dcsrch", "_iterate")):
+            for a_ in list(c.args) + [k_.value for k_ in c.keywords]:
+                if isinstance(a_, ast.Name) and a_.id == "max_steplength":
+                    try:
+                        n_ = cfg_ls.node_of(c)
+                    except Exception:
+                        continue
+                    vals = rd_ls.value_exprs(n_, "max_steplength")
+                    badv = [(d_, v_) for d_, v_, how_ in vals
+                            if not (isinstance(v_, ast.Call) and (dotted(v_.func) or "").split(".")[-1] == "max_allowed_steplength")]
+                    obs.append(ob("STPCAP", "the step cap handed to the line-search kernel is the maximum feasible step and nothing else", ls, c, not badv,
+                                  (f"{len(vals)} reaching definition(s), each the call of max_allowed_steplength" if not badv else
+                                   f"a definition at line {badv[0][0].line} (`{short(badv[0][1], 60) if badv[0][1] is not None else 'parameter'}`) reaches the kernel: "
+                                   f"the cap is no longer the largest feasible step capped by the caller's limit"),
+                                  construct=f"{(dotted(c.func) or '').split('.')[-1]}(stpmax <- max_allowed_steplength(..))"))
+    need(obs, "STPCAP: no call of DCSRCH / dcsrch with max_steplength found in line_search")
+    return obs
